@@ -32,9 +32,13 @@ Lemma gen_grid_start : grid_start = "self.box_grid[start_idx]".
 Proof. reflexivity. Qed.
 
 Lemma gen_cycle_pair :
-  cycle_nodes_def = "(list(molecule.search_tree.edges)[0][0], list(molecule.search_tree.edges)[-1][1])" /\
+  cycle_tree_def = "molecule.search_tree" /\
+  cycle_order_def = "list(tree.nodes)" /\
+  cycle_closing_def = "[tuple(sorted(edge, key=order.index)) for edge in molecule.edges if not tree.has_edge(*edge) and (not tree.has_edge(*edge[::-1]))]" /\
+  cycle_ends_def = "(list(tree.edges)[0][0], list(tree.edges)[-1][1])" /\
+  cycle_nodes_def = "closing[0] if closing else ends" /\
   cycle_restraint_def = "(0.0, tolerance)".
-Proof. split; reflexivity. Qed.
+Proof. repeat split; reflexivity. Qed.
 
 Lemma gen_search_tree_dfs : search_tree_dfs_true = "nx.dfs_tree" /\ search_tree_dfs_true_call = "nx.dfs_tree(self, source=self.root)".
 Proof. split; reflexivity. Qed.
